@@ -1,4 +1,24 @@
 //! Independent reference model for crrl (big integers, affine formulas, one-shot hashes).
 //! Depends on num-bigint only; shares no code with crrl.
 pub mod bf;
+pub mod curves;
 pub mod pf;
+
+pub fn unhex(s: &str) -> Vec<u8> {
+    let s = s.as_bytes();
+    (0..s.len() / 2)
+        .map(|i| {
+            let h = |c: u8| match c {
+                b'0'..=b'9' => c - b'0',
+                b'a'..=b'f' => c - b'a' + 10,
+                b'A'..=b'F' => c - b'A' + 10,
+                _ => panic!("bad hex"),
+            };
+            h(s[2 * i]) * 16 + h(s[2 * i + 1])
+        })
+        .collect()
+}
+
+pub fn hex(b: &[u8]) -> String {
+    b.iter().map(|x| format!("{:02x}", x)).collect()
+}
